@@ -104,10 +104,20 @@ func runC14(c *core.Ctx) {
 	// (1) decode: all 2^24 wire pairs
 	c.Exhaustive("decode: all 64 x 2^18 wire (exponent, mantissa) pairs", 1<<24)
 	c.Section("decode-all", 1<<12, func(cs *core.Case) {
-		b := []byte{0x8F, 206, 0, 4, 0, 0, 0, 1, 0, 0, 0, 0, 'R', 'E', 'M', 'B', 0, 0, 0, 0}
+		// four frames that differ in the SSRC entries that follow the bitrate word (none; one with all
+		// bits set; two, the first with only its top bit set; one with all but the top bit): the
+		// bitrate does not depend on what follows it
+		frames := [][]byte{
+			{0x8F, 206, 0, 4, 0, 0, 0, 1, 0, 0, 0, 0, 'R', 'E', 'M', 'B', 0, 0, 0, 0},
+			{0x8F, 206, 0, 5, 0, 0, 0, 1, 0, 0, 0, 0, 'R', 'E', 'M', 'B', 1, 0, 0, 0, 0xFF, 0xFF, 0xFF, 0xFF},
+			{0x8F, 206, 0, 6, 0, 0, 0, 1, 0, 0, 0, 0, 'R', 'E', 'M', 'B', 2, 0, 0, 0, 0x80, 0, 0, 0, 0, 0, 0, 1},
+			{0x8F, 206, 0, 5, 0, 0, 0, 1, 0, 0, 0, 0, 'R', 'E', 'M', 'B', 1, 0, 0, 0, 0x7F, 0xFF, 0xFF, 0xFF},
+		}
 		var p rtcp.ReceiverEstimatedMaximumBitrate
 		for i := uint32(0); i < 1<<12; i++ {
 			w := uint32(cs.Idx)<<12 | i
+			b := frames[(w^w>>9^w>>18)&3] // the exponent takes part: the 64 words with mantissa 0 meet all four frames
+			nssrc := int(b[16])
 			b[17], b[18], b[19] = byte(w>>16), byte(w>>8), byte(w)
 			// the receiver is a used one: it holds a bitrate and sources that are not on the wire
 			p.SenderSSRC, p.Bitrate, p.SSRCs = 0xDEADBEEF, math.Float32frombits(0x4B2D2D2D), append(p.SSRCs[:0], 0xA5A5A5A5, 0x5A5A5A5A)
@@ -117,7 +127,7 @@ func runC14(c *core.Ctx) {
 			}
 			e, m := uint8(w>>18), w&0x3FFFF
 			want := ref.REMBDecodeBits(e, m)
-			if len(p.SSRCs) != 0 || p.SenderSSRC != 1 {
+			if len(p.SSRCs) != nssrc || p.SenderSSRC != 1 || (nssrc > 0 && p.SSRCs[0] != uint32(b[20])<<24|uint32(b[21])<<16|uint32(b[22])<<8|uint32(b[23])) {
 				cs.Fail("decode/receiver-state-survives", core.W{"input_hex": mon.Hex(b, 20), "decoded_into_used_receiver": vdump(p), "receiver_before": "SenderSSRC 0xDEADBEEF, Bitrate 11349293, SSRCs [a5a5a5a5 5a5a5a5a]"})
 				return
 			}
